@@ -30,6 +30,8 @@ SHRINKERS = ("::remove", "::retain", "::truncate", "::clear", "::pop", "::drain"
 
 
 def run(R):
+    from serdepair import serde_agreement
+    serde_agreement(R, "C18.file.fields", ["ant_bootstrap::cache_store::CacheData"], 2)
     F = R.F
     # (1) single atomic writer
     R.who_may_call("C18.writer", ["atomic_write_file::OpenOptions::open", "atomic_write_file::AtomicWriteFile::open"], [BCS + "::write"], floor=1,
